@@ -54,6 +54,10 @@ pub static SEAM: Mutex<SeamState> = Mutex::new(SeamState { history: Vec::new(), 
 pub static N_PTRACE: AtomicU64 = AtomicU64::new(0);
 pub static N_WAIT: AtomicU64 = AtomicU64::new(0);
 pub static N_GETRANDOM: AtomicU64 = AtomicU64::new(0);
+/// Deterministic work budget of the command now running: the value of N_PTRACE at which the
+/// command counts as not coming back (0 = no budget).  Logical time, not wall-clock time.
+pub static PTRACE_DEADLINE: AtomicU64 = AtomicU64::new(0);
+pub static ON_DEADLINE: Mutex<Option<Box<dyn Fn() + Send>>> = Mutex::new(None);
 /// (read fd, write fd) of every pipe created in this process, in creation order
 pub static PIPES: Mutex<Vec<(i32, i32)>> = Mutex::new(Vec::new());
 static RANDOM_STATE: AtomicU64 = AtomicU64::new(0x5EED_5EED_5EED_5EED);
@@ -150,7 +154,15 @@ pub unsafe extern "C" fn waitpid(pid: libc::pid_t, status: *mut libc::c_int, opt
 
 #[unsafe(no_mangle)]
 pub unsafe extern "C" fn ptrace(req: libc::c_uint, pid: libc::pid_t, addr: *mut libc::c_void, data: *mut libc::c_void) -> libc::c_long {
-    N_PTRACE.fetch_add(1, Ordering::Relaxed);
+    let n = N_PTRACE.fetch_add(1, Ordering::Relaxed);
+    let dl = PTRACE_DEADLINE.load(Ordering::Relaxed);
+    if dl != 0 && n > dl {
+        if let Ok(g) = ON_DEADLINE.lock() {
+            if let Some(f) = g.as_ref() {
+                f();
+            }
+        }
+    }
     let (a, d) = (addr as u64, data as u64);
     {
         let mut g = SEAM.lock().unwrap();
